@@ -10,7 +10,7 @@ FUNCTIONS = ["edp_client::fragmentation::FragmentAssembler::{new, start_fragment
              "FragmentedMessage::{new, add_fragment, set_total_fragments, is_complete, reassemble}, FragmentCount::new"]
 ASSUMPTIONS = ["tracing callsites stubbed to disabled (log emission only)", "RandomState::new stubbed with fixed keys",
                "Instant::now stubbed to a fixed instant: expiry by wall clock (cleanup_expired) is outside the claim",
-               "std::fmt::format stubbed", "arrival orders are enumerated by the generator (all permutations), payload bytes and sequence ids are symbolic"]
+               "std::fmt::format stubbed", "arrival orders are enumerated by the generator (all permutations), payload bytes are symbolic, sequence ids concrete except for single-fragment sequences"]
 OUTSIDE = ["more than 3 fragments, payloads other than 1 byte per fragment, more than 2 interleaved sequences, expiry, atom-cache prefix data"]
 STUBS = ("#[cfg_attr(kani, kani::stub(std::fmt::format, crate::stubs::fmt_format))]\n"
          "#[cfg_attr(kani, kani::stub(std::collections::hash_map::RandomState::new, crate::stubs::random_state_new))]\n"
@@ -22,7 +22,7 @@ STUBS = ("#[cfg_attr(kani, kani::stub(std::fmt::format, crate::stubs::fmt_format
 
 def bounds(tier):
     return {"fragments": "N in {1,2,3}: every arrival permutation; duplicates of every arrival for N=2", "payload": "1 symbolic byte per fragment",
-            "sequence ids": "symbolic u64", "interleaving": "2 sequences x 2 fragments, continuation before header"}
+            "sequence ids": "symbolic u64 for single-fragment sequences; concrete ids otherwise (a symbolic HashMap key makes the probe sequence symbolic)", "interleaving": "2 sequences x 2 fragments, continuation before header"}
 
 
 def fn(name, body):
@@ -39,12 +39,12 @@ def generate(tier, seed):
     for N in (1, 2, 3):
         for perm in itertools.permutations(range(N)):
             n = "c09_order__n%d_%s" % (N, "".join(map(str, perm)))
-            src.append(fn(n, "    one_sequence::<%d>([%s], 99);" % (N, ", ".join(map(str, perm)))))
+            src.append(fn(n, "    one_sequence::<%d>([%s], 99, %s);" % (N, ", ".join(map(str, perm)), "vk::u64()" if N == 1 else "%du64" % (1000 + N))))
             hs.append(H(n, "%d fragments arriving in protocol positions %s: nothing until the last missing one, then the original bytes" % (N, perm)))
     for perm in itertools.permutations(range(2)):
         for dup in range(2):
             n = "c09_dup__n2_%s_dup%d" % ("".join(map(str, perm)), dup)
-            src.append(fn(n, "    one_sequence::<2>([%s], %d);" % (", ".join(map(str, perm)), dup)))
+            src.append(fn(n, "    one_sequence::<2>([%s], %d, 42u64);" % (", ".join(map(str, perm)), dup)))
             hs.append(H(n, "2 fragments in order %s with arrival %d delivered twice" % (perm, dup)))
     for k in (0, 1):
         n = "c09_two_sequences_%d" % k
